@@ -21,6 +21,11 @@ var refMutants = []string{
 	"dynamic-closure",    // a called closure sees the caller's bindings instead of the ones it was created in
 	"setq-makes-local",   // setq of an outer variable creates a new inner binding
 	"dotimes-one-more",   // dotimes runs the body once too often
+	// round 8
+	"psetq-sequential",                          // psetq assigns each variable before the next value form is evaluated
+	"mv-call-primary-values-only",               // multiple-value-call passes only the primary value of each form
+	"special-binding-not-undone-by-return-from", // a dynamic binding left by return-from stays in force (scenario family)
+	"do-step-values-kept-per-form",              // the step values of a do round are kept with the form, not with the activation (re-entrant family)
 }
 
 func selftest(tier string) (killed, total int, notes []string) {
@@ -34,22 +39,46 @@ func selftest(tier string) (killed, total int, notes []string) {
 		})
 	}
 	_ = tier // the programs of every tier include all programs with D <= 2, which is enough to distinguish all mutants
+	differs := func(m string, forms []*node) bool {
+		good := newRef("", refBudgetSteps)
+		gv, gerr := good.run(forms)
+		if gerr != "" {
+			return false
+		}
+		bad := newRef(m, refBudgetSteps)
+		bv, berr := bad.run(forms)
+		return berr != "" || showVal(gv) != showVal(bv) || !sameTrace(good.trace, bad.trace)
+	}
 	for _, m := range refMutants {
 		total++
 		found := ""
 		for _, t := range terms {
-			p := instantiate(t, "c01selftest")
-			good := newRef("", refBudgetSteps)
-			gv, gerr := good.run(p.forms)
-			if gerr != "" {
-				continue
-			}
-			bad := newRef(m, refBudgetSteps)
-			bv, berr := bad.run(p.forms)
-			if berr != "" || showVal(gv) != showVal(bv) || !sameTrace(good.trace, bad.trace) {
+			if differs(m, instantiate(t, "c01selftest").forms) {
 				found = t.String()
 				break
 			}
+		}
+		if found == "" {
+			// the scenario family, then the re-entrant family
+			for i := range scenarios {
+				for _, b := range scenarioVariants(&scenarios[i]) {
+					if forms, _, _ := buildScenario(&scenarios[i], b, "c01selftest"); found == "" && differs(m, forms) {
+						found = "s|" + scenarios[i].name + "|" + b
+					}
+				}
+			}
+		}
+		if found == "" {
+			enumerateReentrant(tier, func(spec string) {
+				if found != "" {
+					return
+				}
+				if c, err := parseRcase(spec); err == nil {
+					if prog, _ := c.build("c01selftest"); differs(m, []*node{prog}) {
+						found = spec
+					}
+				}
+			})
 		}
 		if found != "" {
 			killed++
